@@ -38,8 +38,8 @@ def obligations(tier):
     obls = [CH("pretty_order_kernel", H, "pretty_order_kernel", t, functions=F[3:4], stubs=[FMT],
                bounds="4 top-level keys + custom key, nested dict repeating keys with symbolic values 0..2 (possibly equal)"),
             CH("special_shapes", H, "special_shapes", t, mode="E1s", functions=F, stubs=[JSONT],
-               bounds="17 shapes (bundles 2.0/2.1, bundles with members of the other version / with custom members, observed-data container, markings, toplevel extension, "
-                      "5 time zones, nested key repeats, language content, nested extensions, values reused across spec versions, timestamp objects carrying each of the 6 precision settings into 6 constructors, a type registered after its content was first seen, a registered toplevel extension given as an instance and rebuilt 5 ways) x 32 option vectors")]
+               bounds="18 shapes (bundles 2.0/2.1, bundles with members of the other version / with custom members, observed-data container, markings, toplevel extension, "
+                      "5 time zones, nested key repeats, language content, nested extensions, values reused across spec versions, timestamp objects carrying each of the 6 precision settings into 6 constructors, a type registered after its content was first seen, a registered toplevel extension given as an instance and rebuilt 5 ways, custom properties with number-like names) x 32 option vectors")]
     for p in range(8):
         obls.append(CH("roundtrip_every_class_p%d" % p, H, "roundtrip_classes", t * 2, mode="E1s", functions=F, stubs=[JSONT], env={"VERIF_PART": str(p)},
                        bounds="classes with index %% 8 == %d of 59 x 6 value-pool rotations x {parsed, parsed with custom properties, constructed from naive/UTC/offset datetimes with sub-millisecond digits, constructed with defaulted id and times} x 32 option vectors" % p))
